@@ -33,4 +33,26 @@ run("expected assigned first", t, t != src)
 t2 = re.sub(r"uint32_t expected_crc = \(uint32_t\)page_header\.crc;", "", src, count=1).replace("computed_crc != expected_crc", "computed_crc != (uint32_t)page_header.crc", 1)
 run("cast inlined in the comparison", t2, True)
 run("stored field not cast", src.replace("(uint32_t)page_header.crc", "page_header.crc", 1), False)
+# writer pair (src/writer/page_writer.c)
+wsrc = Path("/repo/src/writer/page_writer.c").read_text()
+(root / "src/writer").mkdir(parents=True, exist_ok=True)
+
+
+def runw(name, text, expect):
+    (root / "src/writer/page_writer.c").write_text(text)
+    try:
+        (c1, g1), (c2, g2) = m.writer_pair(root)
+        res = "computes: %s   stores: %s" % (g1, g2)
+        good = expect == (g1, g2)
+    except m.TieError as e:
+        res = "TieError: " + str(e)[:170]
+        good = expect is None
+    print("%-34s %-5s %s" % (name, "PASS" if good else "FAIL", res))
+
+
+runw("writer HEAD", wsrc, ("write_crc", "write_crc"))
+runw("writer: compute only if values", wsrc.replace("if (writer->write_crc) {\n        page_crc", "if (writer->write_crc && writer->values_buffer.size > 0) {\n        page_crc", 1),
+     ("(write_crc && ((0)%Z <? size)%Z)", "write_crc"))
+runw("writer: unknown operand", wsrc.replace("if (writer->write_crc) {\n        page_crc", "if (writer->write_crc && !writer->fast) {\n        page_crc", 1), None)
+runw("writer: crc call removed", wsrc.replace("page_crc = carquet_crc32(compressed.data, compressed.size);", "page_crc = 0;", 1), None)
 shutil.rmtree(root)
